@@ -508,7 +508,7 @@ func Explore(prog *ssa.Program, fn *ssa.Function, cfg *RunConfig) *EntryResult {
 
 func (e *explorer) worker(id int) {
 	in := NewInterp(e.prog, e.cfg)
-	solver, err := NewSolver(e.cfg.Solver, e.cfg.Arith == "int", e.cfg.TimeoutMs)
+	solver, err := NewSolver(e.cfg.Solver, e.cfg.Arith == "int", e.cfg.TimeoutMs, in.tb)
 	if err != nil {
 		e.mu.Lock()
 		e.res.EngineErrors = append(e.res.EngineErrors, "cannot start solver: "+err.Error())
